@@ -140,6 +140,15 @@ def run(report, p):
             ok, why = param_reaches_spec(p, c, pn)
             r2.check(ok, c, c.node, f"option {pn} of `{name}` is accepted and ignored: {why}", construct=f"{name} option {pn}: {why}")
 
+    # ------------------------------------------------------------------ R12.9
+    r9 = report.rule(
+        "R12.9",
+        "order of the stages between the recorded paths and the 'missing file(s)' report: the ignore filter is applied to the names the files have NOW - no rename rewrite "
+        "(old name -> current name) is applied after the filter, and a filter exists on every chain",
+        3,
+    )
+    _missing_report_stages(p, pr, r9)
+
     # ------------------------------------------------------------------ R12.3
     r3 = report.rule("R12.3", "the missing-file filter receives the same spec object as the traversal of the same command and filters every expected path through it", 3)
     tfm = [f for f in p.funcs.values() if f.module.name.endswith("commands") and any(isinstance(n, ast.Call) and isinstance(n.func, ast.Attribute) and n.func.attr == "match_file" for n in walk_no_nested(f.node)) and "CompletenessCheckFailedException" in norm(f.node)]
@@ -419,6 +428,112 @@ def _in(node, func):
             return True
         x = parent(x)
     return False
+
+
+def _missing_report_stages(p, pr, r9):
+    """def-use chain from MHLHistory.set_of_file_paths() to the collection that is reported as missing; stages SOURCE / RENAME / FILTER / MINUS / MAP"""
+    from sa.flow import defs_of
+
+    reporters = [f for f in p.funcs.values() if f.module.name.endswith("commands") and any(isinstance(n, ast.Call) and norm(n.func).endswith("CompletenessCheckFailedException") for n in walk_no_nested(f.node)) and "missing file" in norm(f.node)]
+    if len(reporters) != 1:
+        raise AnalysisError(f"function reporting missing files not found: {[f.qual for f in reporters]}")
+    rep = reporters[0]
+
+    def comp_stage(comp):
+        st = []
+        gen = comp.generators[0]
+        if any("match_file" in norm(i) for i in gen.ifs):
+            st.append("FILTER")
+        elt = comp.elt if not isinstance(comp, ast.DictComp) else comp.value
+        if any(isinstance(x, ast.Call) and isinstance(x.func, ast.Attribute) and x.func.attr == "get" for x in ast.walk(elt)) or any(isinstance(x, ast.Subscript) for x in ast.walk(elt)):
+            st.append("RENAME")
+        if not st and norm(elt) != norm(gen.target):
+            st.append("MAP")
+        return st
+
+    def chain(f, e, node, binding, depth):
+        """list of alternative stage lists (source first)"""
+        if depth > 12:
+            return [["?depth"]]
+        if isinstance(e, ast.Name):
+            if e.id in f.params + f.kwonly and not [d for d in defs_of(f).reaching(e.id, node) if d[2] != "param"] if node is not None else False:
+                pass
+            dd = defs_of(f)
+            g = cfg_of(f)
+            try:
+                cands = dd.reaching(e.id, node) if node is not None else []
+            except Exception:
+                cands = []
+            out = []
+            for (nm, nid, kind, value, pth, idx) in cands:
+                dn = g.nodes[nid] if isinstance(nid, int) and nid < len(g.nodes) else None
+                if kind == "param" or value is None and e.id in f.params:
+                    if binding is not None and e.id in binding:
+                        cf, arg, cn = binding[e.id]
+                        out += chain(cf, arg, cn, None, depth + 1)
+                    else:
+                        for cq, call in p.callers.get(f.qual, []):
+                            cf = p.funcs[cq]
+                            arg = p.bind_args(f, call).get(e.id)
+                            if arg is not None and any(arg is x for x in list(call.args) + [k.value for k in call.keywords]):
+                                out += chain(cf, arg, cfg_of(cf).node_for(call), None, depth + 1)
+                    continue
+                if value is None:
+                    out.append(["?" + kind])
+                    continue
+                st = dn.ast if dn is not None else None
+                if isinstance(st, ast.AugAssign):
+                    out += [c + ["MINUS"] for c in chain(f, st.target, _prev(g, dn), binding, depth + 1)]
+                    continue
+                out += chain(f, value, dn, binding, depth + 1)
+            return out or [["?undefined " + e.id]]
+        if isinstance(e, (ast.SetComp, ast.ListComp, ast.GeneratorExp)):
+            if len(e.generators) != 1:
+                return [["?comprehension"]]
+            return [c + comp_stage(e) for c in chain(f, e.generators[0].iter, node, binding, depth + 1)]
+        if isinstance(e, ast.BinOp) and isinstance(e.op, ast.Sub):
+            return [c + ["MINUS"] for c in chain(f, e.left, node, binding, depth + 1)]
+        if isinstance(e, ast.Call):
+            nm = norm(e.func)
+            if nm.endswith(".set_of_file_paths"):
+                return [["SOURCE"]]
+            if nm in ("list", "set", "sorted", "tuple", "frozenset") and len(e.args) == 1:
+                return chain(f, e.args[0], node, binding, depth + 1)
+            tg = [t for c2, ts in p.calls.get(f.qual, []) if c2 is e for t in ts if t in p.funcs]
+            if len(tg) == 1:
+                h = p.funcs[tg[0]]
+                b = {pn: (f, arg, node) for pn, arg in p.bind_args(h, e).items() if arg is not None and any(arg is x for x in list(e.args) + [k.value for k in e.keywords])}
+                out = []
+                for rt in [n for n in walk_no_nested(h.node) if isinstance(n, ast.Return) and n.value is not None]:
+                    out += chain(h, rt.value, cfg_of(h).node_for(rt), b, depth + 1)
+                return out or [["?no return"]]
+        return [["?" + norm(e)[:40]]]
+
+    def _prev(g, dn):
+        return dn
+
+    # the collection that is reported: iterable of the loop that logs the paths, inside the reporter
+    loops = [n for n in walk_no_nested(rep.node) if isinstance(n, ast.For) and any(isinstance(x, ast.Call) and norm(x.func).endswith("logger.error") for x in ast.walk(n))]
+    if len(loops) != 1:
+        raise AnalysisError(f"{rep.qual}: loop logging the missing paths not found")
+    r9.instance(rep, loops[0], f"reported collection `{norm(loops[0].iter)}` in {rep.name}")
+    chains = chain(rep, loops[0].iter, cfg_of(rep).node_for(loops[0].iter), None, 0)
+    seen = set()
+    for c in chains:
+        key = tuple(c)
+        if key in seen:
+            continue
+        seen.add(key)
+        r9.instance(rep, loops[0], " -> ".join(c))
+        if any(x.startswith("?") for x in c):
+            if not any(rr.findings for rr in [r9]):
+                raise AnalysisError(f"{rep.qual}: cannot follow the reported collection back to the recorded paths: {' -> '.join(c)}")
+            continue
+        has_f = "FILTER" in c
+        r9.check(has_f, rep, loops[0], f"recorded paths reach the 'missing file(s)' report without passing the ignore filter ({' -> '.join(c)}): ignored paths are reported as missing", construct=f"no ignore filter on chain {' -> '.join(c)}")
+        if has_f:
+            after = c[c.index("FILTER") + 1:]
+            r9.check("RENAME" not in after, rep, loops[0], f"the rename rewrite is applied after the ignore filter ({' -> '.join(c)}): a file renamed to an ignored name is filtered under its OLD name, comes back under the new one and is reported as missing", construct="rename rewrite after the ignore filter")
 
 
 def _single_def(f, name):
